@@ -1,6 +1,6 @@
 // rainvc:pkg internal/metainfo
 // rainvc:function internal/metainfo.NewInfo (cleanName, cleanNameN, trimName, replaceSeparator)
-// rainvc:bound torrent names and single path components: every byte string of length 0..4 over the 7 bytes [. / \ 0xff 0xc3 a space]; each used as the name of a single-file torrent, as the name of a multi-file torrent with path [x], and as a component of paths [s], [s x], [x s] under name "t"; plus every pair (s1, s2) of byte strings of length 0..3 over [. / 0xff a] as path [s1 s2 x]
+// rainvc:bound torrent names and single path components: every byte string of length 0..4 over the 7 bytes [. / \ 0xff 0xc3 a space]; each used as the name of a single-file torrent, as the name of a multi-file torrent with path [x], and as a component of paths [s], [s x], [x s] under name "t"; plus every pair (s1, s2) of byte strings of length 0..3 over [. / 0xff a] as path [s1 s2 x], and the same pairs as path.utf-8 (each string also as name.utf-8) next to harmless plain keys
 package metainfo
 
 // Bounded stand-in (name cleaning is string-library code, outside the generator's reach):
@@ -84,6 +84,15 @@ func TestRainvcBounded(t *testing.T) {
 		for _, s2 := range short {
 			check(fmt.Sprintf("multi-file torrent with path [%q %q x]", s1, s2), map[string]any{"name": "t", "piece length": 16384, "pieces": pieces,
 				"files": []any{map[string]any{"length": 10, "path": []any{s1, s2, "x"}}}})
+		}
+	}
+	// the same crafted strings under the UTF-8 keys, next to harmless plain keys (the paths are
+	// built from the UTF-8 keys when both are present)
+	for _, s1 := range short {
+		check(fmt.Sprintf("single-file torrent with name.utf-8 %q", s1), map[string]any{"name": "ok", "name.utf-8": s1, "piece length": 16384, "pieces": pieces, "length": 10})
+		for _, s2 := range short {
+			check(fmt.Sprintf("multi-file torrent with path.utf-8 [%q %q x]", s1, s2), map[string]any{"name": "t", "piece length": 16384, "pieces": pieces,
+				"files": []any{map[string]any{"length": 10, "path": []any{"album", "song", "x"}, "path.utf-8": []any{s1, s2, "x"}}}})
 		}
 	}
 	fmt.Printf("RAINVC-BOUNDED cases=%d\n", cases)
